@@ -530,6 +530,8 @@ pub struct GenOpts {
     pub avoid_never_value: bool,
     /// `for` binders never shadow (N4: the binding leaks into the enclosing scope)
     pub avoid_for_shadow: bool,
+    /// `?` on an option<void> (success path leaves a dummy on the stack until D71 is fixed)
+    pub avoid_void_try: bool,
     /// more lambda-typed variables and more calls through them (C19 stream)
     pub lambda_boost: bool,
     /// no variable of type void (every binder owns a slot: the analysis tie compares slot counts)
@@ -542,7 +544,7 @@ pub struct GenOpts {
 
 impl Default for GenOpts {
     fn default() -> Self {
-        GenOpts { tier: 0, stmts: 8, budget: 60, depth_safe: true, deep_capture: false, big_ints: 3, avoid_scrutinee_bugs: true, avoid_void_assign: true, avoid_for_shadow: true, avoid_captured_target: true, avoid_never_value: true, try_boost: false, lambda_boost: false, no_unit_vars: false, nesting: false }
+        GenOpts { tier: 0, stmts: 8, budget: 60, depth_safe: true, deep_capture: false, big_ints: 3, avoid_scrutinee_bugs: true, avoid_void_assign: true, avoid_for_shadow: true, avoid_captured_target: true, avoid_never_value: true, try_boost: false, avoid_void_try: true, lambda_boost: false, no_unit_vars: false, nesting: false }
     }
 }
 
@@ -749,7 +751,11 @@ impl<'a> Gen<'a> {
     }
     fn fn_ty(&mut self) -> Ty {
         let n = 1 + self.rng.below(2) as usize;
-        let args = (0..n).map(|_| self.scalar()).collect();
+        let mut args: Vec<Ty> = (0..n).map(|_| self.scalar()).collect();
+        if !self.o.no_unit_vars && self.rng.chance(1, 4) {
+            let pos = self.rng.below(args.len() as u64 + 1) as usize;
+            args.insert(pos, Ty::Unit);
+        }
         let ret = self.scalar();
         Ty::Fn(args, Box::new(ret))
     }
@@ -1279,11 +1285,20 @@ impl<'a> Gen<'a> {
         if let Some((name, params, ret)) = self.self_sig.clone() {
             if &ret == ty && self.self_calls_left > 0 && self.lambda_depth == 0 && (cands.is_empty() || self.rng.chance(1, 2)) {
                 self.self_calls_left -= 1;
-                let mut args = vec![Expr::Bin(BinOp::Sub, Box::new(Expr::Var(params[0].0.clone())), Box::new(Expr::Int(1)))];
+                let budget = format!("n{}", &name[2..]);
+                let mut args = vec![];
                 let d0 = self.depth;
-                self.depth = d0 + 1;
-                for (_, t) in params.iter().skip(1) {
-                    args.push(self.expr(t, d.saturating_sub(1)));
+                for (x, t) in params.iter() {
+                    if *x == budget {
+                        args.push(Expr::Bin(BinOp::Sub, Box::new(Expr::Var(budget.clone())), Box::new(Expr::Int(1))));
+                    } else if *t == Ty::Unit {
+                        args.push(Expr::Unit);
+                    } else {
+                        args.push(self.expr(t, d.saturating_sub(1)));
+                    }
+                    if *t != Ty::Unit {
+                        self.depth = d0 + 1;
+                    }
                 }
                 self.depth = d0;
                 self.hit("call_recursive");
@@ -1296,10 +1311,13 @@ impl<'a> Gen<'a> {
         let f = self.prog.fns[*self.rng.pick(&cands)].clone();
         let mut args = vec![];
         let d0 = self.depth;
-        for (k, (_, t)) in f.params.iter().enumerate() {
-            // the first parameter of every generated function is its recursion budget
-            if k == 0 {
+        let budget = format!("n{}", &f.name[2..]);
+        for (x, t) in f.params.iter() {
+            // the parameter `n<k>` of every generated function is its recursion budget
+            if *x == budget {
                 args.push(Expr::Int(self.rng.below(4) as i64));
+            } else if *t == Ty::Unit && self.rng.chance(3, 4) {
+                args.push(Expr::Unit);
             } else {
                 args.push(self.expr(t, d.saturating_sub(1)));
             }
@@ -1324,8 +1342,10 @@ impl<'a> Gen<'a> {
         let mut args = vec![];
         let d0 = self.depth;
         for t in ats {
-            args.push(self.expr(t, d.saturating_sub(1)));
-            self.depth = d0 + 1;
+            args.push(if *t == Ty::Unit { Expr::Unit } else { self.expr(t, d.saturating_sub(1)) });
+            if *t != Ty::Unit {
+                self.depth = d0 + 1;
+            }
         }
         self.depth = d0;
         self.hit("call_lambda");
@@ -1387,7 +1407,7 @@ impl<'a> Gen<'a> {
         let can_try_opt = matches!(self.ret_ty, Some(Ty::Opt(_))) && self.lambda_depth == 0;
         let can_try_res = matches!(self.ret_ty, Some(Ty::Res(_))) && self.lambda_depth == 0 && *ty == Ty::Int;
         let r = self.rng.below(10);
-        if can_try_opt && r < 5 {
+        if can_try_opt && r < 5 && !(self.o.avoid_void_try && *ty == Ty::Unit) {
             self.hit("try_option");
             let inner = self.opt_source(&Ty::Opt(Box::new(ty.clone())), d1);
             return Some(Expr::Try(Box::new(inner)));
@@ -1795,6 +1815,15 @@ impl<'a> Gen<'a> {
             }
             params.push((self.fresh("a"), t));
         }
+        // void-typed parameters occupy no argument slot: first, middle, last position, several
+        if !self.o.no_unit_vars && self.rng.chance(2, 5) {
+            let nv = 1 + self.rng.below(2) as usize;
+            for _ in 0..nv {
+                let pos = self.rng.below(params.len() as u64 + 1) as usize;
+                params.insert(pos, (self.fresh("u"), Ty::Unit));
+            }
+            self.hit("void_param");
+        }
         let ret = match if self.o.try_boost { 6 + self.rng.below(5) } else { self.rng.below(12) } {
             0..=4 => self.scalar(),
             5 => Ty::Unit,
@@ -1811,9 +1840,8 @@ impl<'a> Gen<'a> {
         self.cur_fn = Some(k);
         self.ret_ty = Some(ret.clone());
         self.budget = self.o.budget / 2;
-        self.declare(&n, Ty::Int, false, true);
-        for (x, t) in params.iter().skip(1) {
-            self.declare(x, t.clone(), false, false);
+        for (x, t) in params.iter() {
+            self.declare(x, t.clone(), false, *x == n);
         }
         // base case first (no recursion), then the body
         self.self_sig = None;
@@ -2547,6 +2575,7 @@ pub mod run {
         let d39 = fixed("let a = 5\nfor a in 3 { }\nprintln(a)\n", "5\n");
         let d41 = fixed("let arr = [1]\nlet f = (a: int) -> {\n arr[0] = a\n 0\n}\nf(5)\nprintln(arr)\n", "[ 5 ]\n");
         let n6 = fixed("fn g(n: int) -> int {\n  let u = if false { return 0 } else { }\n  1\n}\nprintln(g(0))\n", "1\n");
+        let d71 = fixed("fn f(x: option<void>, n: int) -> option<int> {\n  let r = 10 + { x?\n n }\n  option.some(r)\n}\nprintln(f(option.some(nil), 3))\n", "some(13)\n");
         let onoff = |b: bool, what: &str| if b { "on".to_string() } else { format!("off({what} not fixed)") };
         ctx.count(&format!("shape:deep-capture:{}", onoff(d16, "D16")));
         ctx.count(&format!("shape:let/capture-in-match-scrutinee:{}", onoff(d36, "D36/D37")));
@@ -2554,7 +2583,9 @@ pub mod run {
         ctx.count(&format!("shape:for-binder-shadowing:{}", onoff(d39, "D39")));
         ctx.count(&format!("shape:captured-assignment-target:{}", onoff(d41, "D41")));
         ctx.count(&format!("shape:never-typed-if-as-value:{}", onoff(n6, "N6")));
+        ctx.count(&format!("shape:try-on-void-payload:{}", onoff(d71, "D71")));
         GenOpts {
+            avoid_void_try: !d71,
             deep_capture: d16,
             avoid_scrutinee_bugs: !d36,
             avoid_void_assign: !d38,
